@@ -630,6 +630,12 @@ func appTypeOf(a *App) string {
 	case "bare":
 		return "NULL"
 	case "foo":
+		switch a.typePrefix() {
+		case "sts_":
+			return "statefulset"
+		case "dp_":
+			return "deployment"
+		}
 		return strings.ToLower(a.ownerKind())
 	}
 	return a.Kind
